@@ -456,6 +456,47 @@ fn run_in(case: &C06Case, exec: &mut Exec) -> Result<CaseInfo, Fail> {
         }
         checks += 1;
     }
+    // a frame imported again under its id into the other context has left its old context:
+    // nothing scoped to A may still show it, whichever path is asked
+    {
+        let mv = must("append mover", exec.append(&spec("moved.topic", a, None), Some(b"moving")))?;
+        must(
+            "import mover into B",
+            exec.import(&FrameSpec {
+                topic: "moved.topic".into(),
+                ctx: b,
+                id: Some(mv.id128()),
+                hash: mv.hash.clone(),
+                meta: None,
+                ttl: None,
+            }),
+        )?;
+        checks += 1;
+        if let Some(w) = must("head", exec.head("moved.topic", a))? {
+            return Err(iso(format!(
+                "frame {} was imported into context {} under its id; head(\"moved.topic\", A={}) still returns frame {} of context {}",
+                mv.id,
+                id_str(b),
+                id_str(a),
+                w.id,
+                w.ctx
+            )));
+        }
+        if must("read_sync", exec.read_sync(None, None, Some(a)))?.iter().any(|w| w.id == mv.id) {
+            return Err(iso(format!("frame {} was imported into context {} under its id and is still in the stream of context {}", mv.id, id_str(b), id_str(a))));
+        }
+        match must("head", exec.head("moved.topic", b))? {
+            Some(w) if w.id == mv.id && w.ctx128() == b => {}
+            other => return Err(iso(format!("head(\"moved.topic\", B) after the import is {:?}, expected frame {} in B", other.map(|w| (w.id, w.ctx)), mv.id))),
+        }
+        if url_safe {
+            match httpx::head(&sock, "moved.topic", a, true) {
+                HOut::Ok(None) => {}
+                HOut::Infra(e) => return Err(infra(format!("connect: {e}"))),
+                other => return Err(iso(format!("GET /head/moved.topic?context=A after the frame moved to B answered {other:?}"))),
+            }
+        }
+    }
     // only the all-contexts read sees both
     let all = must("read_sync", exec.read_sync(None, None, None))?;
     let ids: Vec<&String> = all.iter().map(|w| &w.id).collect();
